@@ -78,20 +78,22 @@ extern "C" void harness(void)
   same(r1, full, eA, 10);                     // seeded wrong expectation: the union "forgets" B
 #else
   same(r1, full, eAB, 10);
-#endif same(a, full, eA, 12); same(b, full, eB, 14);
+#endif
+  // (these two calls used to stand on the #endif line above, where the preprocessor discards them: ids 12..15 were never checked)
+  same(a, full, eA, 12); same(b, full, eB, 14);
 
 #if SEQ == 1
   AutT r2 = AutT::UnionDisjointStates(a, c);
   Big eAC = join(eA, eC);
   same(r2, full, eAC, 20); same(c, full, eC, 22);
 #elif SEQ == 2
-  AutT r2 = AutT::Union(a, r1);               // renumbers the states of both operands unless they share a table
+  AutT r2 = AutT::Union(a, r1);               // renumbers the states of both operands unless they share a table: decoded numbering-free
   { enum { NU = NA + NALL }; static_assert(NU <= BA::MAXQ, "too many states in the union");
-    BA::Dump<NU> d = BA::dump<NU>(r2, full); CHECK(d.ok, 20); CHECK(BA::sameLang(eAB, d.aut), 21); }
+    BA::Dump<NU> d = BA::dump<NU>(r2, full, true); CHECK(d.ok, 20); CHECK(BA::sameLang(eAB, d.aut), 21); }
 #elif SEQ == 3
   AutT r2 = AutT::Intersection(a, r1);
   { enum { NP = NA * (NA + NB) }; static_assert(NP <= BA::MAXQ, "too many product states");
-    BA::Dump<NP> d = BA::dump<NP>(r2, full); CHECK(d.ok, 20); CHECK(BA::sameLang(eA, d.aut), 21); }
+    BA::Dump<NP> d = BA::dump<NP>(r2, full, true); CHECK(d.ok, 20); CHECK(BA::sameLang(eA, d.aut), 21); }
 #elif SEQ == 4
   AutT r2 = r1.RemoveUselessStates(); AutT r3 = a.RemoveUnreachableStates();
   { BA::Dump<NALL> d = BA::dump<NALL>(r2, full); CHECK(d.ok, 20); CHECK(BA::sameLang(eAB, d.aut), 21);
